@@ -263,6 +263,45 @@ fn prefixed_keys_family(rep: &mut Report, tier: Tier, mode: &str) {
                 }
             }
         }
+        // the same deciding pairs among many other members: a sort that switches algorithm (or
+        // compares a bounded prefix first) above some number of entries sees the pair only there
+        if matches!(l, 0 | 1 | 7 | 8 | 15 | 16 | 17 | 31 | 32 | 33) {
+            let special = ["\u{e000}", "\u{ffff}", "\u{10000}", "\u{10ffff}", "a", "\u{e9}"];
+            for fill in [15usize, 16, 17, 31, 32, 33, 63, 64, 65, 129, 257] {
+                for a in special {
+                    for b in special {
+                        if a == b {
+                            continue;
+                        }
+                        let ka = format!("{prefix}{a}");
+                        let kb = format!("{prefix}{b}z");
+                        let mut members: Vec<(String, RV)> = Vec::with_capacity(fill + 2);
+                        for f in 0..fill {
+                            if f == fill / 3 {
+                                members.push((ka.clone(), RV::Num("1".into())));
+                            }
+                            if f == 2 * fill / 3 {
+                                members.push((kb.clone(), RV::Str("s".into())));
+                            }
+                            // fillers on both sides of the pair in every order: ASCII, BMP, supplementary
+                            let filler = match f % 3 {
+                                0 => format!("f{f:03}"),
+                                1 => format!("{}{f:03}", '\u{f000}'),
+                                _ => format!("{}{f:03}", '\u{10400}'),
+                            };
+                            members.push((filler, RV::Num(f.to_string())));
+                        }
+                        let v = RV::Obj(members);
+                        if mode == "C09" {
+                            c09_value(&v, t);
+                        } else {
+                            c10_value(&v, t);
+                        }
+                    }
+                }
+            }
+            t.outcome("keys:long common prefix among many members");
+        }
         t.nontrivial(&(ui, l));
         t.outcome("keys:long common prefix");
     });
